@@ -85,13 +85,27 @@ impl Cleaner {
     /// be leaked and the cleaning action will never be executed.
     #[inline]
     pub fn register(&self, action: impl FnOnce() + 'static) -> Cleanable {
-        let cc = {
+        // Cc::new may start a collection, and the finalizers it runs may call register() on this very Cleaner.
+        // So the map is created before taking the reference to the Option, which must not be kept across Cc::new
+        // SAFETY: no reference to the Option already exists
+        if unsafe { (*self.cleaner_map.get()).is_none() } {
+            let new_map = Cc::new(CleanerMap {
+                map: RefCell::new(SlotMap::with_capacity_and_key(3)),
+            });
+
             // SAFETY: no reference to the Option already exists
             let map = unsafe { &mut *self.cleaner_map.get() };
+            if map.is_none() {
+                *map = Some(new_map);
+            }
+            // Otherwise a nested call to register() has already created the map: keep that one
+            // (it contains the action registered by the nested call), the empty new_map is just dropped
+        }
 
-            map.get_or_insert_with(|| Cc::new(CleanerMap {
-                map: RefCell::new(SlotMap::with_capacity_and_key(3)),
-            }))
+        let cc = {
+            // SAFETY: no reference to the Option already exists, and the Option is Some
+            let map = unsafe { &*self.cleaner_map.get() };
+            map.as_ref().unwrap()
         };
 
         let map_key = cc.map.borrow_mut().insert(CleaningAction(Some(Box::new(action))));
